@@ -45,10 +45,15 @@ impl Collector {
     pub fn new() -> Self {
         Self::default()
     }
+    /// The cap on distinct signatures is per property, so that a flood of disagreements attributed
+    /// to another property can never crowd out a finding of the property being checked.
+    fn room_for(&self, prop: &str) -> bool {
+        self.by_sig.values().filter(|(f, _)| f.prop == prop).count() < MAX_SIGS
+    }
     pub fn add(&mut self, f: Finding) {
         if let Some(e) = self.by_sig.get_mut(&f.sig) {
             e.1 += 1;
-        } else if self.by_sig.len() < MAX_SIGS {
+        } else if self.by_sig.len() < MAX_SIGS || self.room_for(&f.prop) {
             self.by_sig.insert(f.sig.clone(), (f, 1));
         } else {
             *self.counters.entry("findings_dropped_over_signature_cap".into()).or_insert(0) += 1;
@@ -99,7 +104,7 @@ impl Collector {
         for (k, (f, n)) in o.by_sig {
             if let Some(e) = self.by_sig.get_mut(&k) {
                 e.1 += n;
-            } else if self.by_sig.len() < MAX_SIGS {
+            } else if self.by_sig.len() < MAX_SIGS || self.room_for(&f.prop) {
                 self.by_sig.insert(k, (f, n));
             }
         }
